@@ -17,7 +17,7 @@ prop("C01", run="^TestC01", level="exploration",
 
 prop("C03", run="^TestC03", level="exploration",
      quick=(16, 1200, 900), thorough=(16, 30000, 7200),
-     rule=FRAME_GEN + "; streams of 1..8 frames on one (version, compression) followed by sentinel bytes, decoded through a generated reader kind (*bytes.Buffer, *bytes.Reader, bufio.Reader, counting reader, short reads) with exact per-frame consumption; one frame in three is edited after its first encoding (tracing id / warnings / payload toggled, message replaced, named values added next to positional ones - documented as tolerated, the positional ones win) and encoded again from the same Frame object; before one frame in four the codec is first asked to encode a frame it must refuse half-way through its body (a nil value after a regular one); every primitive LengthOf*/Write* pair on generated values; "
+     rule=FRAME_GEN + "; streams of 1..8 frames on one (version, compression) followed by sentinel bytes, decoded through a generated reader kind (*bytes.Buffer, *bytes.Reader, bufio.Reader, counting reader, short reads) with exact per-frame consumption; one frame in three is edited after its first encoding (tracing id / warnings / payload toggled, message replaced, named values added next to positional ones - documented as tolerated, the positional ones win) and encoded again from the same Frame object; before one frame in four the codec is first asked to encode a frame it must refuse half-way through its body (a nil value after a regular one); half of the streams are encoded frame after frame into ONE *bytes.Buffer whose earlier bytes must not change, one stream in three ends with its last frame instead of sentinel bytes, frames refused at the header stage (v2, stream id 300) or by a destination that fails after 0..40 bytes are encoded in between; TestC03MutatedTypes: a UDT/tuple/list/map/custom type object changed in place between two encodings of the Rows/Prepared frame that refers to it; every primitive LengthOf*/Write* pair on generated values; "
           "vint boundary table (2^k-1,2^k,2^k+1, k=0..64, both signs); non-trivial = stream has >= 2 frames or a body-prefix part / primitive encoding > 2 bytes; distinct by stream bytes hash",
      assumptions=["a frame's consumed length is measured by the source's own remaining-length (bytes.Buffer/Reader), or a counting reader minus what bufio still buffers"],
      text="Randomised exploration of length agreement (header vs emitted, EncodedLength vs Encode, LengthOf* vs Write*) and of exact stream consumption over generated frame sequences.",
@@ -27,7 +27,7 @@ prop("C03", run="^TestC03", level="exploration",
 prop("C05", run="^(TestC05|FuzzC05$)", level="exploration", fuzz=("FuzzC05", 300),
      quick=(12, 400, 900), thorough=(12, 10000, 7200),
      rule=FRAME_GEN + " through the paths DecodeRawFrame+ConvertFromRawFrame, DecodeHeader+DecodeBody, DecodeHeader+DecodeRawBody, DecodeHeader+DiscardBody (seekable and not), "
-          "ConvertToRawFrame+EncodeRawFrame, EncodeBody+EncodeHeader, each compared with DecodeFrame and each required to stop exactly at a sentinel; raw frames and frames decoded from a *bytes.Buffer must survive the caller reusing that buffer; "
+          "ConvertToRawFrame+EncodeRawFrame, EncodeBody+EncodeHeader, each compared with DecodeFrame and each required to stop exactly at a sentinel; raw frames and frames decoded from a *bytes.Buffer must survive the caller reusing that buffer; a raw frame that was inspected (ConvertFromRawFrame) must forward (EncodeRawFrame) to the bytes it came from and convert again to the same frame; other frames are converted and encoded between ConvertToRawFrame and EncodeRawFrame; "
           "on a header re-declaring a negative or shorter body length DecodeRawBody, DiscardBody(seekable) and DiscardBody(stream) must agree (all refuse / all consume exactly that many bytes); re-encode clause on valid and mutated "
           "(flag/opcode/version/bit-flip/byte-set/trailing-garbage) inputs that still decode; non-trivial = non-empty body (paths) / mutated input that differs from the encoder's output (re-encode); distinct by frame or input hash. "
           "Coverage-guided stage for the re-encode clause: native fuzz target FuzzC05(compressor, bytes) with the decode-encode-decode oracle inside; seed corpus (generated frames + committed corpus) replayed in both tiers, 300 s of fuzzing on all cores in the thorough tier, saved inputs confirmed in the isolated worker",
@@ -77,9 +77,9 @@ prop("C02", run="^TestC02", level="exploration",
 prop("C06", run="^TestC06", level="exploration",
      quick=(8, 600, 900), thorough=(16, 20000, 7200),
      rule="segment payloads: length from boundaries {0,1,2,3,15,16,255,256,65535,65536,65537,131070,131071} / 0..300 / uniform 0..131071 (thorough: additionally EVERY length 0..131071 once per content class and configuration) "
-          "x content class (all-equal, short period, text, random, half/half) x self-contained flag x {no compressor, LZ4}; oversize payloads 131072..1 MiB for the refusal clause. Oracle: emitted bytes parsed by an independent "
+          "x content class (all-equal, short period, text, random, half/half, random with a short compressible tail) x computed fields of the input Segment zero or junk (documented as not read) x self-contained flag x {no compressor, LZ4}; oversize payloads 131072..1 MiB for the refusal clause. Oracle: emitted bytes parsed by an independent "
           "implementation of header packing, CRC-24 and seeded CRC-32 (bitwise, no tables); uncompressed segments byte-exact; LZ4: fallback form or a block the independent LZ4 decoder expands to the payload; round trip incl. header "
-          "length fields; the payload is handed over as a sub-slice of a larger buffer that must stay untouched inside and behind the slice; conforming segments built by the reference encoder (fallback and run-length LZ4) must decode. Non-trivial = payload length > 0; distinct by (length, class, seed, flag, compressor)",
+          "length fields; the payload is handed over as a sub-slice of a larger buffer that must stay untouched inside and behind the slice; second use of objects: the Segment just encoded gets another payload and is encoded again, the segment just decoded is forwarded through the codec of the other kind - both must equal a fresh object's encoding; conforming segments built by the reference encoder (fallback and run-length LZ4) must decode. Non-trivial = payload length > 0; distinct by (length, class, seed, flag, compressor)",
      assumptions=["the uncompressed fallback is signalled by uncompressed-length field = 0 and the payload length in the compressed-length field (the property's anchor and Cassandra's encoder); the literal sentence of spec 2.3.2 ('setting the compressed length to 0') contradicts the layout and is not asserted",
                   "harness/ref/segment.go and harness/ref/lz4.go are trusted base"],
      text="Differential + round-trip exploration of the v5 segment layer against an independent framing/CRC/LZ4 implementation; the thorough tier enumerates every payload length.",
@@ -225,9 +225,11 @@ prop("C16", run="^TestC16", level="fault_enumeration",
      rule="(A) timeout clause on the in-flight handler shim: read timeout 100/200/400 ms, 0..6 non-final pages arriving every timeout/20 then silence or a final page; cases whose measured inter-page gap reached timeout/2 are discarded as noisy. "
           "(B) scripted sessions {connect, handshake, send K<=3 requests, answer some, one non-final page in progress, 0..3 receivers blocked in Receive/ReceiveEvent, optionally a goroutine hammering Send} against a library server or a raw TCP peer, with a fault {client Close, concurrent double Close, "
           "server-connection Close, server Close, context cancel, peer TCP close/reset} injected after each of the 5 step boundaries: the full (peer x fault x boundary x version in {4,5,DSE2}) matrix every run, plus rapid-generated sessions, plus rapid-generated schedules (yield / sleep / wait-until-point-reached, bounded 300 ms) "
-          "at 13 hook points of the client package. (C) faults in the MIDDLE of the handshake: a library server connection blocked in AcceptHandshake (raw client silent, after OPTIONS/SUPPORTED, or after STARTUP/AUTHENTICATE) or a library client blocked in InitiateHandshake (raw server silent after STARTUP or after AUTH_RESPONSE) x {peer FIN, peer RST, own Close, server Close, context cancel} x version x auth: "
+          "at 15 hook points of the client package. (C) faults in the MIDDLE of the handshake: a library server connection blocked in AcceptHandshake (raw client silent, after OPTIONS/SUPPORTED, or after STARTUP/AUTHENTICATE) or a library client blocked in InitiateHandshake (raw server silent after STARTUP or after AUTH_RESPONSE) x {peer FIN, peer RST, own Close, server Close, context cancel} x version x auth: "
           "the blocked call returns a non-nil error, Close returns, no goroutine survives. (D) timeout clause on a real connection: ReadTimeout drawn independently of ConnectTimeout (150-600 ms vs 20-60 s with a silent raw peer: the request fails with a timeout after >= 80 % and < read timeout + 8 s; 3-4 s vs 250-400 ms with an answer at 20-30 %: it is delivered). "
           "(F) Send racing with the end of the connection: 1-4 goroutines per side call Send without pause while the connection is closed from either end (5-25 rounds per case); no panic, every call returns. (E) the helper PerformHandshake with wrong credentials or a fault (client Close, server-connection Close, server Close, context cancel) 0-20 ms into it, and a server closed while an Accept is pending for a client it has not accepted: calls return, no goroutine survives, no panic. After the handler is closed IsDone/Err/Incoming of completed requests still return. One session in three uses caller-chosen stream ids outside 1..MaxInFlight (2000, -7, 32767). Worker-isolated. Oracle within 10 s: every accepted unanswered request has its channel closed, IsDone() and Err()!=nil; blocked receivers return; later Send fails; Close returns (twice, concurrently); no goroutine of the client package survives; no panic. "
+          "(G) a final response being routed when the connection closes (in-flight handler shim): the delivering goroutine is parked at one of three hook points (after the lookup, after the request was unregistered, before the frame is handed over) until the context is cancelled and/or the handler closed; every request must end up completed; "
+          "and the same race as stress (2000-10000 rounds x 2-8 workers per case, every fourth case) for the window no hook can own: no panic. "
           "Non-trivial = the fault lands with an unanswered request, a blocked receiver or before the script's end; distinct by session spec",
      assumptions=["all time bounds are generous upper bounds (10 s against sub-second behaviour); only 'still not done after the bound' or a panic counts",
                   "the window inside Send's select statement (operand evaluated, channel closed by Close, then send) has no hook point and is only reachable by stress repetition (TestC16SendCloseRace; the defect behind it was found by the thorough tier and repaired)"],
